@@ -37,7 +37,7 @@ def _plans(quick: bool):
     plans = []
     for length in range(12, 19):
         plans += [_plan(length, 1, 6, 1), _plan(length, 2, 6, 3)]
-        plans.append(_plan(length, 3, 6, 3) if length == 16 else _plan(length, 3, 3, 2))
+        plans.append(_plan(length, 3, 6, 3) if length == 14 else _plan(length, 3, 3, 2))
     return plans, {12}
 
 
@@ -66,6 +66,11 @@ def _features(case: dict) -> list:
              f"codon_start_{case['g']['cs']}"]
     if _bridges(loc):
         feats.append("gene_spans_origin")
+    if case["g"]["cs"] > 1:
+        feats.append("codon_start_shifted")
+    starts = [p[0] for p in loc["parts"]]
+    if loc["strand"] == -1 and len(starts) > 1 and starts == sorted(starts):
+        feats.append("reverse_parts_ascending")
     if total % 3:
         feats.append("ragged_tail")
     return sorted(feats)
